@@ -363,7 +363,12 @@ Variable gunzip : bytes -> res bytes.
 (* storeBlocks with indexing: each block is parsed in the request goroutine (a panic there is
    recovered: 500), stored, and then CalcNumLabels runs on it in a callback goroutine (a panic
    there ends the process).  fuel = number of bytes (every frame consumes at least 17). *)
-Fixpoint store_blocks (fx : bool) (fuel : nat) (s : bytes) (st : store) : store * outcome :=
+(* checkBlockSize (repo_patches/C20-23): the block's dimensions, in sub-blocks, must be those of
+   the instance *)
+Definition dims_ok (bsz : N * N * N) (b : block) : bool :=
+  let '(x, y, z) := bsz in (b_gx b =? x) && (b_gy b =? y) && (b_gz b =? z).
+
+Fixpoint store_blocks (fx : bool) (bsz : N * N * N) (fuel : nat) (s : bytes) (st : store) : store * outcome :=
   match fuel with
   | O => (st, Rejected)
   | S f =>
@@ -379,18 +384,19 @@ Fixpoint store_blocks (fx : bool) (fuel : nat) (s : bytes) (st : store) : store 
         | Err => (st, Rejected)
         | Panic => (st, Recovered)
         | Ok b =>
+          if fx && negb (dims_ok bsz b) then (st, Rejected) else
           let st' := sput st coord comp in
           match view_calc b with
           | Panic => (st', Crashed)
-          | _ => store_blocks fx f rest st'
+          | _ => store_blocks fx bsz f rest st'
           end
         end
       end
     end
   end.
 
-Definition handle_blocks (fx : bool) (s : bytes) (st : store) : store * outcome :=
-  store_blocks fx (S (length s)) s st.
+Definition handle_blocks (fx : bool) (bsz : N * N * N) (s : bytes) (st : store) : store * outcome :=
+  store_blocks fx bsz (S (length s)) s st.
 
 (* block coordinates named by the frames of a stream *)
 Fixpoint frame_coords (fuel : nat) (s : bytes) : list key :=
@@ -603,7 +609,7 @@ Definition handle_nj (key_is_number : bool) (dec_object : option bytes) (k : key
 (* One ingestion / mutation request, after the oracles (gzip, protobuf, JSON decoders) have
    run, and what the handler does with it. *)
 Inductive request :=
-| RBlocks (stream : bytes)                              (* POST blocks *)
+| RBlocks (bsz : N * N * N) (stream : bytes)            (* POST blocks to an instance whose blocks have bsz sub-blocks *)
 | RSparse (body : bytes)                                (* POST split / split-supervoxel: sparse volume *)
 | RIndex (url_label : N) (dec : pidx * bool)            (* POST index/<label> *)
 | RIndices (dec : option (list pidx))                   (* POST indices *)
@@ -621,7 +627,7 @@ Definition of_res {A} (st : store) (r : res A) : store * outcome :=
    is modelled; the mutation that follows an accepted payload belongs to C08 / C13. *)
 Definition handle (gunzip : bytes -> res bytes) (fx : bool) (r : request) (st : store) : store * outcome :=
   match r with
-  | RBlocks s => handle_blocks gunzip fx s st
+  | RBlocks bsz s => handle_blocks gunzip fx bsz s st
   | RSparse body => of_res st (read_rles body)
   | RIndex l dec => handle_index fx l dec st
   | RIndices dec => handle_indices dec st
@@ -635,7 +641,7 @@ Definition handle (gunzip : bytes -> res bytes) (fx : bool) (r : request) (st : 
 (* the keys a request names: only these may differ after it, whatever the answer *)
 Definition named (r : request) : list key :=
   match r with
-  | RBlocks s => named_blocks s
+  | RBlocks _ s => named_blocks s
   | RSparse _ => []
   | RIndex l _ => [[l]]
   | RIndices (Some l) => map (fun i => [pi_label i]) l
@@ -650,6 +656,6 @@ Definition named (r : request) : list key :=
 (* requests whose handler decodes and checks the whole payload before the first write *)
 Definition single_shot (r : request) : bool :=
   match r with
-  | RBlocks _ | RIndices _ => false
+  | RBlocks _ _ | RIndices _ => false
   | _ => true
   end.
